@@ -22,6 +22,7 @@ import (
 	"unicode/utf8"
 
 	"github.com/matrix-org/gomatrixserverlib/spec"
+	"github.com/tidwall/gjson"
 )
 
 // Event validation errors
@@ -51,6 +52,52 @@ type eventFields struct {
 	Unsigned       spec.RawJSON   `json:"unsigned,omitempty"`
 	OriginServerTS spec.Timestamp `json:"origin_server_ts"`
 	//Origin         spec.ServerName `json:"origin"`
+}
+
+// eventFieldNames are the member names that the event structs of the event formats decode.
+var eventFieldNames = []string{
+	"room_id", "sender", "type", "state_key", "content", "redacts", "depth", "unsigned", "origin_server_ts",
+	"event_id", "prev_events", "auth_events", "msc4354_sticky", "sticky",
+}
+
+// isCaseVariantOfEventField reports whether name differs from a member name the event structs
+// decode only in letter case (under Unicode case folding, as encoding/json compares names).
+func isCaseVariantOfEventField(name string) bool {
+	for _, field := range eventFieldNames {
+		if name != field && strings.EqualFold(name, field) {
+			return true
+		}
+	}
+	return false
+}
+
+// unmarshalEventFields decodes the members of an event into its struct. encoding/json matches
+// member names to struct fields without regard to letter case, the later member winning: a
+// "Sender" or "TYPE" member - an extra field like any other - would replace the sender or the
+// type that the accessors report. Such members are left out of the decoding.
+func unmarshalEventFields(eventJSON []byte, event interface{}) error {
+	found := false
+	gjson.ParseBytes(eventJSON).ForEach(func(key, _ gjson.Result) bool {
+		found = isCaseVariantOfEventField(key.String())
+		return !found
+	})
+	if !found {
+		return json.Unmarshal(eventJSON, event)
+	}
+	var members map[string]json.RawMessage
+	if err := json.Unmarshal(eventJSON, &members); err != nil {
+		return err
+	}
+	for name := range members {
+		if isCaseVariantOfEventField(name) {
+			delete(members, name)
+		}
+	}
+	exact, err := json.Marshal(members)
+	if err != nil {
+		return err
+	}
+	return json.Unmarshal(exact, event)
 }
 
 var emptyEventReferenceList = []eventReference{}
